@@ -28,3 +28,63 @@ fp("dask/graph_manipulation.py", "checkpoint", "_checkpoint_one", "_build_map_la
 fp("dask/highlevelgraph.py", "Layer.clone")
 fp("dask/blockwise.py", "Blockwise.clone")
 fp("dask/base.py", "clone_key")
+
+
+# ---------------------------------------------------------------------------------------------
+# C08: slot lists used by Task.__getstate__/__setstate__ (get_all_slots = sorted(set(slots over the mro)))
+# ---------------------------------------------------------------------------------------------
+import ast as _ast
+
+from tables import ExtractError, lean_str, parse, table
+
+
+def _class_slots(tree, name):
+    for node in tree.body:
+        if isinstance(node, _ast.ClassDef) and node.name == name:
+            has = any(isinstance(s, _ast.Assign) and any(isinstance(t, _ast.Name) and t.id == "__slots__" for t in s.targets)
+                      and isinstance(s.value, _ast.Call) and getattr(s.value.func, "id", None) == "tuple"
+                      and len(s.value.args) == 1 and getattr(s.value.args[0], "id", None) == "__annotations__"
+                      for s in node.body)
+            ann = [s.target.id for s in node.body if isinstance(s, _ast.AnnAssign) and isinstance(s.target, _ast.Name)]
+            bases = [b.id for b in node.bases if isinstance(b, _ast.Name)]
+            if not has:
+                if ann:
+                    raise ExtractError(f"class {name}: annotations but no `__slots__ = tuple(__annotations__)`")
+                return [], bases
+            return ann, bases
+    raise ExtractError(f"class {name} not found in dask/_task_spec.py")
+
+
+@table("TaskSpecSlots")
+def task_spec_slots(repo):
+    tree = parse(repo, "dask/_task_spec.py")
+    known = {}
+
+    def all_slots(name, seen=()):
+        if name in ("Iterable", "Mapping", "MutableMapping", "Container", "object"):
+            return set()
+        if name in seen:
+            raise ExtractError("cyclic class hierarchy")
+        own, bases = known.setdefault(name, _class_slots(tree, name))
+        out = set(own)
+        for b in bases:
+            out |= all_slots(b, seen + (name,))
+        return out
+    rows = []
+    for cls in ("Task", "NestedContainer", "List", "Tuple", "Set", "Dict"):
+        sl = sorted(all_slots(cls))
+        rows.append(f"def slots{cls} : List String := [" + ", ".join(lean_str(x) for x in sl) + "]")
+    # shape of NestedContainer.__getstate__/__setstate__: the kwarg that is dropped and restored
+    from tables import find_def
+    gs = find_def(tree, "NestedContainer.__getstate__")
+    dropped = [n.args[0].value for n in _ast.walk(gs) if isinstance(n, _ast.Call) and isinstance(n.func, _ast.Attribute)
+               and n.func.attr == "pop" and n.args and isinstance(n.args[0], _ast.Constant)]
+    ss = find_def(tree, "NestedContainer.__setstate__")
+    restored = [n.slice.value for n in _ast.walk(ss) if isinstance(n, _ast.Subscript) and isinstance(n.slice, _ast.Constant)]
+    if dropped != ["constructor"] or restored != ["constructor"]:
+        raise ExtractError(f"NestedContainer state handling changed: pops {dropped}, restores {restored}")
+    return ("namespace Dask.Generated.TaskSpecSlots\n"
+            "/-- `cls.get_all_slots()` = sorted(set(__slots__ over the mro)) -/\n" + "\n".join(rows) + "\n"
+            "/-- the kwarg `NestedContainer.__getstate__` drops and `__setstate__` restores -/\n"
+            f"def droppedKwarg : String := {lean_str(dropped[0])}\n"
+            "end Dask.Generated.TaskSpecSlots\n")
